@@ -43,6 +43,9 @@ def check_register(ctx, P):
     okslot = [s.node for s in slot if s.value is not None and key_mentions(fs.key(s.value, True), lambda x: x[0] == "glob" and x[1] == "sleep_spinlock")]
     wst = [s.node for s, v in c01.state_stores(fs) if v == c01.WAITING]
     wtr = [s.node for s in fs.stores_to("waiter_el", "waiter")]
+    # a plain yield on a path that takes no lock and registers nothing (a zero-length sleep) is not part of the sleep protocol
+    proto = locks + ins + wst + wtr + okslot
+    ys = [y for y in ys if any(fs.find_path(a_, lambda n, y=y: n is y) is not None for a_ in proto)] or ys
     for what, nodes in (("the node insertion", ins), ("the WAITING store", wst), ("the waiter back-pointer store", wtr)):
         if not nodes:
             bad = bad or ("%s is missing" % what, fs.loc, None, "missing " + what)
@@ -437,6 +440,28 @@ def check_tree(ctx, P):
     o.check(bad is None, "leftmost first; right subtree kept", bad, site=rm.loc, construct="sleep tree removal")
 
 
+def guaranteed_ms(ctx, P, s_, u_):
+    """the time fiber_sleep(s_, u_) is guaranteed to keep its caller suspended, in ms: 0 when it returns without registering (a plain yield), else
+    floor(ticks / u) * T for the `ticks` it adds to the tick counter (u units per expiration, period T ms; see early.tick)"""
+    fs = P.fn("fiber_sleep")
+    tick = ctx.derived.get("tick") or {"units_per_expiration": 1, "period_ms": 5.0}
+    isS, isU = is_param_load(fs, "seconds"), is_param_load(fs, "useconds")
+    isC = is_global_load("timer_trigger_count")
+    isE = is_global_load("event_fd")
+    BASE = 1000
+    atom = atom_from([(isS, s_), (isU, u_), (isC, BASE), (isE, 3), (lambda n: n.k == "CallExpr" and n.indirect, -1)])
+    st = [x for x in fs.stores_to("waiter_el", "wake_time")]
+    if not st:
+        raise AnalysisBroken("fiber_sleep: wake_time store not found")
+    if fs.find_path("entry", lambda n: n is st[0].node, edge_ok=forced_edges(fs, atom)) is None:
+        return 0.0
+    try:
+        ticks = ev(fs, st[0].value, atom) - BASE
+    except Unevaluable as e:
+        raise AnalysisBroken("fiber_sleep: cannot evaluate the deadline (%s)" % e)
+    return (ticks // tick["units_per_expiration"]) * tick["period_ms"]
+
+
 def check_shims(ctx, P):
     isTL = is_global_load("thread_locked")
     isMG = lambda n: n.k == "CallExpr" and n.callee == "fiber_manager_get"
@@ -446,7 +471,7 @@ def check_shims(ctx, P):
     }
     for name, (vals, want_us) in specs.items():
         fn = P.fn(name)
-        o = ctx.ob("shims", fn, "%s() hands fiber_sleep a (seconds, microseconds) pair worth at least the requested time, and goes to fiber_sleep "
+        o = ctx.ob("shims", fn, "%s() calls fiber_sleep with a (seconds, microseconds) pair for which fiber_sleep guarantees at least the requested time, and goes to fiber_sleep "
                    "exactly when a manager exists and the thread is not I/O-locked (else to the real libc call)" % name,
                    "a lossy unit conversion shortens the sleep; calling the real sleep from a fiber stalls the whole kernel thread")
         cs = fn.calls("fiber_sleep")
@@ -462,12 +487,13 @@ def check_shims(ctx, P):
                 u_ = ev(fn, fn.args(cs[0])[1], atom)
             except Unevaluable as e:
                 raise AnalysisBroken("%s: cannot evaluate fiber_sleep arguments (%s)" % (name, e))
-            if s_ * 1000000 + u_ < want_us({pname: v}):
-                bad = bad or "%s(%d) asks fiber_sleep for (%d s, %d us): shorter than requested" % (name, v, s_, u_)
+            g_ = guaranteed_ms(ctx, P, s_, u_)
+            if g_ * 1000.0 < want_us({pname: v}):
+                bad = bad or "%s(%d) calls fiber_sleep(%d, %d), which guarantees %.3f ms: shorter than requested" % (name, v, s_, u_, g_)
         bad = bad or route(fn, cs, real, isTL, isMG)
         o.check(bad is None, "conversion table + routing", bad, site=cs[0], construct=name + " conversion/routing")
     fn = P.fn("nanosleep")
-    o = ctx.ob("shims", fn, "nanosleep() hands fiber_sleep at least the requested time (nanoseconds rounded up to microseconds) and is routed like sleep()", "")
+    o = ctx.ob("shims", fn, "nanosleep() calls fiber_sleep with a pair for which fiber_sleep guarantees at least the requested time (end to end: conversion, the +1, the tick period, a zero-length fast path) and is routed like sleep()", "")
     cs = fn.calls("fiber_sleep")
     real = [c for c in fn.calls() if c.indirect]
     bad = None
@@ -483,8 +509,9 @@ def check_shims(ctx, P):
                 u_ = ev(fn, fn.args(cs[0])[1], atom)
             except Unevaluable as e:
                 raise AnalysisBroken("nanosleep: cannot evaluate fiber_sleep arguments (%s)" % e)
-            if (s_ * 1000000 + u_) * 1000 < sec * 1000000000 + ns:
-                bad = bad or "nanosleep({%d, %d}) asks fiber_sleep for (%d s, %d us): shorter than requested" % (sec, ns, s_, u_)
+            g_ = guaranteed_ms(ctx, P, s_, u_)
+            if g_ * 1e6 < sec * 1000000000 + ns:
+                bad = bad or "nanosleep({%d, %d}) calls fiber_sleep(%d, %d), which guarantees %.3f ms: shorter than requested" % (sec, ns, s_, u_, g_)
         bad = bad or route(fn, cs, real, isTL, isMG)
         o.check(bad is None, "conversion table + routing", bad, site=cs[0], construct="nanosleep conversion/routing")
 
